@@ -60,7 +60,17 @@ pub fn make_item(ch: &Choices, allow_fixture: bool) -> Option<Item> {
         w.write(&pcm.inter).ok()?;
         w.finalize().ok()?;
     }
-    let bytes = cur.into_inner();
+    let mut bytes = cur.into_inner();
+    // a third of the corpus has an unknown total length (STREAMINFO total = 0, as in a stream whose
+    // encoder could not seek back): still a valid file, but the decoder has to find the end itself
+    let unknown_total = ch.draw("dmg.unknown_total", 3) == 2;
+    if unknown_total {
+        bytes[21] &= 0xF0;
+        for b in &mut bytes[22..26] {
+            *b = 0;
+        }
+        probe("dmg_unknown_total_length");
+    }
     let rs = refflac::parse_stream(&bytes, 0).ok()?;
     if !rs.is_valid() || rs.pcm() != pcm.inter {
         return None;
@@ -68,7 +78,7 @@ pub fn make_item(ch: &Choices, allow_fixture: bool) -> Option<Item> {
     Some(Item {
         channels: cfg.channels as usize,
         block: cfg.block as usize,
-        desc: format!("{} frames={} file={}B audio@{}", cfg.describe(), frames, bytes.len(), rs.meta.audio_start),
+        desc: format!("{} frames={} file={}B audio@{} unknown_total={unknown_total}", cfg.describe(), frames, bytes.len(), rs.meta.audio_start),
         bytes,
         rs,
     })
